@@ -269,21 +269,27 @@ class AsyncTask(futures.FutureBase):
         else:
             # when there is no _task it means that this is the bottommost level of the async
             # task. We must attach the traceback as soon as possible
-            if not hasattr(error, "_task"):
-                error._task = self
-                core_errors.prepare_for_reraise(error)
-            else:
-                # when we already have the _task on the error, it means that
-                # some child generator of ours had an error.
-                # now, we are storing the _traceback on the error. we use this so we can
-                # raise it with that exact traceback later.
-                # now, we when do raise it, the upper level gets a new traceback
-                # with the current level's traceback connected via a linked list pointer.
-                # known as tb_next in traceback object.
-                # this is really important. if we keep updating this traceback,
-                # we can glue all the different tasks' tracebacks and make it look like
-                # the error came from there.
-                error._traceback = sys.exc_info()[2]
+            try:
+                if not hasattr(error, "_task"):
+                    error._task = self
+                    core_errors.prepare_for_reraise(error)
+                else:
+                    # when we already have the _task on the error, it means that
+                    # some child generator of ours had an error.
+                    # now, we are storing the _traceback on the error. we use this so we can
+                    # raise it with that exact traceback later.
+                    # now, we when do raise it, the upper level gets a new traceback
+                    # with the current level's traceback connected via a linked list pointer.
+                    # known as tb_next in traceback object.
+                    # this is really important. if we keep updating this traceback,
+                    # we can glue all the different tasks' tracebacks and make it look like
+                    # the error came from there.
+                    error._traceback = sys.exc_info()[2]
+            except (AttributeError, TypeError):
+                # the exception object does not accept new attributes (a frozen dataclass,
+                # __slots__ without __dict__): it cannot carry the glued traceback, but it
+                # still has to become this task's error
+                pass
 
             if _debug_options.DUMP_EXCEPTIONS:
                 debug.dump_error(error)
